@@ -726,7 +726,7 @@ class DefGen:
 
     def generate(self):
         r = self.r
-        n_defs = 260 if self.tier == "thorough" else 90
+        n_defs = 400 if self.tier == "thorough" else 90
         # module tree: a few nested modules, some with raw names
         # "dup::dup": a segment name that occurs twice in one path (replace_segment must rewrite every occurrence)
         mods = [[], ["m1"], ["m1", "inner"], ["m2"], ["r#mod"], ["m2", "r#type", "deep"], ["dup", "dup"]]
